@@ -398,6 +398,30 @@ CLAIMS["C17"] = dict(
          "non-terminating kernel into a violation instead of a hang.",
     design="3/C17")
 
+CLAIMS["C06"] = dict(
+    technique="Hypothesis-generated query sequences (as data) + exhaustive "
+              "ordered pairs, fresh-twin differential for order "
+              "independence, repeat check, byte-wise snapshots of every "
+              "caller-owned array and shared data object",
+    text="For Network, GeoNetwork (+GeoGrid), SpatialNetwork, "
+         "InteractingNetworks, ResNetwork, nine climate network classes "
+         "built from ONE shared ClimateData in generated order, "
+         "Data/ClimateData, the recurrence family, VisibilityGraph, "
+         "Surrogates, CouplingAnalysis and EventSeries: (1) every query "
+         "inside a generated sequence equals its value on a fresh twin "
+         "evaluated in isolation (interferer -> victim pairs are named in "
+         "the signature), all ordered pairs of ~130 Network and ~190 "
+         "GeoNetwork queries are enumerated in the thorough tier; (2) a "
+         "repeated deterministic query returns an equal value and values "
+         "handed out earlier are not changed by later library calls; (3) "
+         "caller-owned arrays and the shared data object's observable / "
+         "anomaly / phase means are byte-identical after every constructor "
+         "and query, unless the docstring declares the method in-place.",
+    note="Trusted: fresh twins from the public constructors. Randomised "
+         "methods take part as seeded interferers only; methods that loop "
+         "until a random proposal is accepted are not called here (C17).",
+    design="3/C06")
+
 NOT_CLAIMED = {}
 
 
